@@ -210,13 +210,31 @@ fn c06_report(rep: &mut Report, f: &str, s: &[u32], t: &[u32], r: &[u32], i: i32
 fn c06_alphabets(tier: Tier) -> Vec<(Vec<u32>, usize, usize, usize)> {
     // (alphabet, max subject length, max pattern length, max replacement length)
     match tier {
-        Tier::Quick => vec![(vec![97, 98], 5, 3, 2), (vec![0, MAX_CHAR], 3, 2, 1)],
-        Tier::Thorough => vec![(vec![97, 98], 7, 4, 2), (vec![97, 98, MAX_CHAR], 6, 3, 2), (vec![0, 1, MAX_CHAR - 1, MAX_CHAR], 4, 2, 1)],
+        // surrogate code points and 0xFFFD are ordinary SMT characters: they must never be confused with each other
+        Tier::Quick => vec![(vec![97, 98], 6, 4, 2), (vec![0, MAX_CHAR], 3, 2, 1), (vec![0x61, 0xFFFD, 0xD800, 0xDFFF], 3, 2, 1)],
+        Tier::Thorough => vec![(vec![97, 98], 8, 5, 2), (vec![97, 98, 99], 6, 4, 2), (vec![97, 98, MAX_CHAR], 6, 3, 2), (vec![0, 1, MAX_CHAR - 1, MAX_CHAR], 4, 2, 1), (vec![0x61, 0xFFFD, 0xD800, 0xDFFF, 0x10000], 4, 2, 2)],
     }
 }
 
 fn c06_run(ctx: &Ctx, batch: usize, nb: usize, rep: &mut Report) {
     let mut item = 0usize;
+    for (s, p) in c06_long_cases() {
+        item += 1;
+        if item % nb != batch {
+            continue;
+        }
+        rep.inc("long_pattern_cases");
+        for f in ["contains", "prefixof", "suffixof"] {
+            c06_report(rep, f, &s, &p, &[], 0, 0);
+        }
+        for i in 0..=(s.len() as i32) {
+            c06_report(rep, "indexof", &s, &p, &[], i, 0);
+        }
+        for r in [vec![], vec![122], p.clone()] {
+            c06_report(rep, "replace", &s, &p, &r, 0, 0);
+            c06_report(rep, "replace_all", &s, &p, &r, 0, 0);
+        }
+    }
     for (alpha, ls, lp, lr) in c06_alphabets(ctx.tier) {
         let ss = all_strings(&alpha, ls);
         let ps = all_strings(&alpha, lp);
@@ -260,13 +278,54 @@ fn c06_run(ctx: &Ctx, batch: usize, nb: usize, rep: &mut Report) {
     }
 }
 
+/// long subjects/patterns with repeated prefixes (search shortcuts only go wrong on long self-overlapping patterns)
+fn c06_long_cases() -> Vec<(Vec<u32>, Vec<u32>)> {
+    let units: Vec<Vec<u32>> = vec![vec![97], vec![97, 98], vec![97, 98, 99], vec![97, 97, 98]];
+    let mut pats: Vec<Vec<u32>> = vec![];
+    for u in &units {
+        for reps in 1..=4 {
+            for tail in [vec![], vec![100], vec![97], vec![97, 100]] {
+                let mut p: Vec<u32> = vec![];
+                for _ in 0..reps {
+                    p.extend(u);
+                }
+                p.extend(&tail);
+                if p.len() >= 3 && p.len() <= 12 {
+                    pats.push(p);
+                }
+            }
+        }
+    }
+    pats.sort();
+    pats.dedup();
+    let mut out = vec![];
+    for p in &pats {
+        // subjects: partial matches of every length followed by the pattern, and the pattern overlapping itself
+        for k in 0..p.len() {
+            for pre in [vec![], vec![97], vec![100]] {
+                let mut s = pre.clone();
+                s.extend(&p[..k]);
+                s.extend(p.iter());
+                s.extend(&p[..k.min(2)]);
+                out.push((s, p.clone()));
+                let mut s2 = pre.clone();
+                s2.extend(&p[..k]);
+                s2.extend(&p[..p.len() - 1]);
+                out.push((s2, p.clone()));
+            }
+        }
+    }
+    out
+}
+
 fn c06_replay(_ctx: &Ctx, c: &Value, rep: &mut Report) {
     let f = c["fn"].as_str().unwrap_or("").to_string();
     c06_report(rep, &f, &parr(&c["s"]), &parr(&c["t"]), &parr(&c["r"]), c["i"].as_i64().unwrap_or(0) as i32, c["n"].as_i64().unwrap_or(0) as i32);
 }
 
 fn c06_meta(ctx: &Ctx) -> Meta {
-    let space = c06_alphabets(ctx.tier).iter().map(|(a, ls, lp, lr)| format!("alphabet {:?}: all subjects of length <= {}, patterns <= {}, replacements <= {}", a, ls, lp, lr)).collect::<Vec<_>>().join("; ");
+    let mut space = c06_alphabets(ctx.tier).iter().map(|(a, ls, lp, lr)| format!("alphabet {:?}: all subjects of length <= {}, patterns <= {}, replacements <= {}", a, ls, lp, lr)).collect::<Vec<_>>().join("; ");
+    space.push_str(&format!("; {} long (subject, pattern) cases with periodic patterns of length 3-12 and partial matches of every length before the occurrence", c06_long_cases().len()));
     Meta {
         level: "exploration",
         rule: "every tuple (function, subject, pattern, replacement, index, length) of the stated finite space is evaluated once and compared with a brute-force transcription of the SMT-LIB 2.6 definition; index/length arguments range over i32::MIN, i32::MIN+1, -2, -1, 0..len+2, i32::MAX-len-1, i32::MAX-len, i32::MAX-1, i32::MAX (all pairs for substr); non-trivial = distinct (subject, non-empty pattern) pairs with at least two occurrences".into(),
@@ -477,6 +536,19 @@ fn c08_texts(tier: Tier, f: &mut dyn FnMut(usize, &str)) {
             idx += 1;
         }
     }
+    // (5) a non-ASCII character (2-4 bytes in UTF-8) in front of escape attempts: byte offsets and character counts differ
+    for pre in ["\u{e9}", "\u{ffff}x", "\u{10000}", "a\u{2ffff}\u{e9}"] {
+        for a in &at {
+            for post in ["", "}", "\\u0041", "\u{e9}\\u{42}"] {
+                f(idx, &format!("{}{}{}", pre, a, post));
+                idx += 1;
+            }
+        }
+        for b in ["\\u0041", "\\u{41}", "\\u{2FFFF}", "\\uFFFF", "\\u{0}", "\\\\u0041", "x\\u0041\u{e9}\\u{42}"] {
+            f(idx, &format!("{}{}", pre, b));
+            idx += 1;
+        }
+    }
     // (4) non-ASCII characters in and around escape attempts
     let na = ['\\', 'u', '{', '}', '1', '\u{e9}', '\u{ffff}', '\u{10000}', '\u{2ffff}', '"'];
     let mut cur: Vec<String> = vec![String::new()];
@@ -574,7 +646,7 @@ fn c08_meta(ctx: &Ctx) -> Meta {
         rule: "parser: every text of the families below is parsed and compared with an independent grammar-level reader; printer: every text viewed as a string of its own characters, every single code point 0..=0x2FFFF, and all short strings over 18 critical code points are printed, checked for printable ASCII / doubled quotes, and read back through parse_smt_literal; non-trivial = texts in which at least one escape sequence is decoded".into(),
         assumptions: vec!["the reference reader transcribes SMT-LIB 2.6: \\ud3d2d1d0 and \\u{d..} with 1-5 hex digits and value <= 0x2FFFF, every other character copied".into()],
         exhaustive: true,
-        space: format!("all texts of length <= {} over {{\\,u,{{,}},0,2,3,F,g}}; escape-shaped family (6 prefixes x brace x 0-7 digits x 6 closers); pairs of consecutive escape attempts; texts of length <= 4 with non-ASCII characters; all 196608 single code points; strings of length <= {} over 18 critical code points", if ctx.tier == Tier::Thorough { 7 } else { 6 }, if ctx.tier == Tier::Thorough { 4 } else { 3 }),
+        space: format!("all texts of length <= {} over {{\\,u,{{,}},0,2,3,F,g}}; escape-shaped family (6 prefixes x brace x 0-7 digits x 6 closers); pairs of consecutive escape attempts; texts of length <= 4 with non-ASCII characters; non-ASCII prefixes in front of every escape attempt; all 196608 single code points; strings of length <= {} over 18 critical code points", if ctx.tier == Tier::Thorough { 7 } else { 6 }, if ctx.tier == Tier::Thorough { 4 } else { 3 }),
     }
 }
 
@@ -730,6 +802,36 @@ fn c09_run(ctx: &Ctx, batch: usize, nb: usize, rep: &mut Report) {
             c09_viol(rep, json!({"kind": "order", "a": a, "b": b}), c09_order_case(a, b));
         }
     }
+    // order on long strings: a^i b^j and a^i b a^j up to length 20 (block-wise comparisons, differing block counts)
+    let mut long: Vec<Vec<u32>> = vec![];
+    let lmax = if th { 26 } else { 20 };
+    for i in 0..=lmax {
+        for j in 0..=(lmax - i) {
+            let mut v = vec![0x61u32; i];
+            v.extend(vec![0x62u32; j]);
+            long.push(v);
+            if j >= 1 {
+                let mut w = vec![0x61u32; i];
+                w.push(0x7a);
+                w.extend(vec![0x61u32; j - 1]);
+                long.push(w);
+            }
+        }
+    }
+    long.sort();
+    long.dedup();
+    for a in &long {
+        if !mine(&mut item) {
+            continue;
+        }
+        beat();
+        for b in &long {
+            if a != b && (a.starts_with(b) || b.starts_with(a)) {
+                rep.inc("nontrivial");
+            }
+            c09_viol(rep, json!({"kind": "order", "a": a, "b": b}), c09_order_case(a, b));
+        }
+    }
     // to_int: mixed strings
     for s in all_strings(&[0x30, 0x39, 0x2f, 0x3a, 0x61], if th { 6 } else { 4 }) {
         if !mine(&mut item) {
@@ -861,7 +963,7 @@ fn c09_meta(ctx: &Ctx) -> Meta {
         rule: "every listed argument is evaluated once in this build profile (the check is run in the release profile, overflow checks off, and in the dev profile, overflow checks on) and compared with slice comparison / u128 arithmetic; for str_to_int of an all-digit string whose value exceeds i32::MAX the only accepted outcome is a panic; non-trivial = ordered string pairs where one is a proper prefix of the other".into(),
         assumptions: vec!["lexicographic order of Vec<u32> slices is the SMT-LIB order on code-point sequences".into(), "a panic of any kind counts as 'panics as documented' for an out-of-range str_to_int".into()],
         exhaustive: true,
-        space: format!("str_lt/str_le: all ordered pairs of strings of length <= {} over {{0,1,0x2FFFF}}; str_to_int: all strings of length <= {} over {{'0','9','/',':','a'}}, all digit strings of length <= {} over {{0,2,4,9}}, decimal forms (0-2 leading zeros, and with a non-digit inserted) of values around 2^31, 2^32, 2^33, k*10^9, 10^10..10^25 and a spread over [2^31,2^32); str_from_int: all n < {} plus powers of 2 and 10 +-1, i32 limits, negatives; codes: all x in [0,0x2FFFF+40] and out-of-range values; str_to_code/str_is_digit on strings of length <= 2 over 8 characters", if th { 5 } else { 4 }, if th { 6 } else { 4 }, if th { 11 } else { 9 }, if th { 20_000_000 } else { 300_000 }),
+        space: format!("str_lt/str_le: all ordered pairs of strings of length <= {} over {{0,1,0x2FFFF}} and all ordered pairs of the strings a^i b^j, a^i z a^j of length <= 20 (thorough 26); str_to_int: all strings of length <= {} over {{'0','9','/',':','a'}}, all digit strings of length <= {} over {{0,2,4,9}}, decimal forms (0-2 leading zeros, and with a non-digit inserted) of values around 2^31, 2^32, 2^33, k*10^9, 10^10..10^25 and a spread over [2^31,2^32); str_from_int: all n < {} plus powers of 2 and 10 +-1, i32 limits, negatives; codes: all x in [0,0x2FFFF+40] and out-of-range values; str_to_code/str_is_digit on strings of length <= 2 over 8 characters", if th { 5 } else { 4 }, if th { 6 } else { 4 }, if th { 11 } else { 9 }, if th { 20_000_000 } else { 300_000 }),
     }
 }
 
@@ -1036,6 +1138,17 @@ fn c17_run(ctx: &Ctx, batch: usize, nb: usize, rep: &mut Report) {
             }
         }
     }
+    for pre in ["\\", "\\u", "\\u{", "\\u{1", "\\u{12", "\\u{1234", "\\u{12345", "\\u1", "\\u12", "\\u123", "\\u{ACG", "\\u{3G", "x\\u{F"] {
+        for big in ['\u{30000}', '\u{e0041}', '\u{10ffff}', '\u{3ffff}'] {
+            for post in ["", "}", "0", "\\u0041", "\\u0000", "\\u{0}"] {
+                texts.push(format!("{}{}{}", pre, big, post));
+                texts.push(format!("{}{}{}", pre, post, big));
+            }
+        }
+        for post in ["\\u0041", "\\u0000", "\\uFFFF", "\\u{0000}", " and then \\u0041"] {
+            texts.push(format!("{}{}", pre, post));
+        }
+    }
     for t in &texts {
         if !mine(&mut item) {
             continue;
@@ -1050,6 +1163,22 @@ fn c17_run(ctx: &Ctx, batch: usize, nb: usize, rep: &mut Report) {
             c17_viol(rep, json!({"kind": "char", "text": t}), c17_text_case("char", t));
         }
     }
+    // every literal text of the C08 families: whatever the parser does with it, the result is well formed
+    c08_texts(ctx.tier, &mut |i, text| {
+        if i % nb != batch {
+            return;
+        }
+        rep.inc("evaluations");
+        rep.inc("literal_texts");
+        match guarded(|| parse_smt_literal(text)) {
+            Err(e) => rep.violation("C17", "c17", json!({"kind": "parse", "text": text}), format!("parse_smt_literal({:?}) {}", text, e)),
+            Ok(s) => {
+                if !s.is_good() {
+                    rep.violation("C17", "c17", json!({"kind": "parse", "text": text}), format!("parse_smt_literal({:?}) = {:?} contains a code point above 0x2FFFF", text, codes(&s)));
+                }
+            }
+        }
+    });
     // every Rust char above the limit, at a stride, and every char below it at a coarser stride
     let mut x = 0u32;
     while x <= 0x10FFFF {
@@ -1194,7 +1323,7 @@ fn c17_meta(_ctx: &Ctx) -> Meta {
         rule: "every constructor (From<&str>, From<String>, From<char>, From<u32>, From<&[u32]>, From<&[u32;N]>, From<Vec<u32>>, parse_smt_literal) is applied to every listed input; the result must satisfy is_good(), keep every valid input character unchanged (integer constructors: replace values above 0x2FFFF by 0xFFFD), and ReManager::str / str_in_re must accept it without panicking; closure: every str_* and regex-replace operation applied to all pairs of a pool of good strings, for 1-2 rounds (states = argument pairs, transitions = operation applications); non-trivial = inputs containing a value above 0x2FFFF".into(),
         assumptions: vec!["the replacement chosen for Rust characters above U+2FFFF is not prescribed: only 'nothing above 0x2FFFF, valid characters unchanged, same length' is required of the &str/String/char constructors".into()],
         exhaustive: true,
-        space: "texts of length <= 2 (thorough 3) over 13 scalar values incl. U+30000, U+3FFFF, U+E0000, U+10FFFF; escape attempts combined with out-of-range characters; Rust chars at a stride over the whole scalar range; integer sequences of length <= 3 over 10 values incl. 0x30000, 0x3FFFF, 0x40000, u32::MAX; every integer in bands around 0x2FFFF and 0x3FFFF..0x40010 through the Vec fast path; closure of the string operations over a pool of good strings".into(),
+        space: "texts of length <= 2 (thorough 3) over 13 scalar values incl. U+30000, U+3FFFF, U+E0000, U+10FFFF; escape attempts combined with out-of-range characters (a large character after every kind of escape prefix); all literal texts of the C08 families; Rust chars at a stride over the whole scalar range; integer sequences of length <= 3 over 10 values incl. 0x30000, 0x3FFFF, 0x40000, u32::MAX; every integer in bands around 0x2FFFF and 0x3FFFF..0x40010 through the Vec fast path; closure of the string operations over a pool of good strings".into(),
     }
 }
 
